@@ -20,6 +20,7 @@ func (p *FinalLimitPlan) Init() error {
 }
 
 func (p *FinalLimitPlan) Next(ctx *ExecuteCtx) ([]Column, error) {
+	simYield("limit.row")
 	for p.skips < p.Start {
 		cols, err := p.ChildPlan.Next(ctx)
 		if err != nil {
